@@ -15,17 +15,13 @@ import Hts.Lemmas.BgzfStream
 namespace Hts.Props.C01
 open Hts.Model Hts.Model.BgzfWriter
 
-/-- the writer state after a script, at the real block size -/
-def after {α : Type} (ops : List (Op α)) : State α := (run BlockSize blockSize_pos State.init ops).1
-
 /-! ### writer invariant -/
 
 /-- Whatever the script, the queued blocks followed by the active block are exactly the accepted
 payloads, concatenated in call order (nothing lost, duplicated or reordered). -/
 theorem writer_flatten {α : Type} (ops : List (Op α)) :
-    (after ops).emitted.flatten ++ (after ops).active = accepted ops := by
-  have := run_held BlockSize blockSize_pos (State.init : State α) ops rfl
-  simpa [after, State.held, State.init] using this
+    (after ops).emitted.flatten ++ (after ops).active = accepted ops :=
+  after_held ops
 
 /-- Whatever the script: the active block is never full; until Close every queued block has between 1
 and BlockSize bytes; after Close the queue is such data blocks followed by the one block Close queued
@@ -35,12 +31,12 @@ theorem writer_blocks {α : Type} (ops : List (Op α)) :
     ((after ops).closed = false → ∀ blk ∈ (after ops).emitted, 1 ≤ blk.length ∧ blk.length ≤ BlockSize) ∧
     ((after ops).closed = true → (after ops).active = [] ∧ ∃ pre last, (after ops).emitted = pre ++ [last] ∧
         (∀ blk ∈ pre, 1 ≤ blk.length ∧ blk.length ≤ BlockSize) ∧ last.length < BlockSize) := by
-  have h := run_inv BlockSize blockSize_pos (State.init : State α) ops (Inv.init BlockSize blockSize_pos)
+  have h := after_inv ops
   exact ⟨h.active_lt, h.open_blocks, h.closed_blocks⟩
 
 /-- The writer is closed exactly when the script contains a Close. -/
-theorem writer_closed_iff {α : Type} (ops : List (Op α)) : (after ops).closed = hasClose ops := by
-  simpa [after, State.init] using run_closed BlockSize blockSize_pos (State.init : State α) ops
+theorem writer_closed_iff {α : Type} (ops : List (Op α)) : (after ops).closed = hasClose ops :=
+  after_closed ops
 
 /-- A Write on an open writer accepts every byte. -/
 theorem write_accepts_all {α : Type} (s : State α) (b : List α) (h : s.closed = false) :
@@ -180,12 +176,21 @@ open Member in
 /-- With the writer's default header and a codec within zlib's deflateBound (what `compressBound`
 relies on), no block of at most BlockSize bytes is ever refused. -/
 theorem default_header_fits (c : CodecFns) (hb : Bounded c) (p : List Byte) (hp : p.length ≤ BlockSize) :
-    Fits c {} p := by
-  refine ⟨⟨by decide, by simp, by simp⟩, ?_⟩
-  have := hb p
-  simp only [memberLen, zbytes, MaxBlockSize, BlockSize] at *
-  simp
-  omega
+    Fits c {} p :=
+  default_fits c hb p hp
+
+open Member in
+/-- Hence, with the default header (what C01 quantifies over: levels, wc, rd, scripts) and a lawful codec
+within the bound, EVERY script that closes the writer round-trips: Close returns nil and the reader
+delivers exactly the accepted payloads for every read script. -/
+theorem roundtrip_default (c : Codec) (hb : Bounded c.toCodecFns) (wops : List (Op Byte)) (hclose : hasClose wops = true) :
+    (closeOutput c.toCodecFns {} (after wops).emitted).2 = none ∧
+    ∃ blocks r0, readStream c.toCodecFns (closeOutput c.toCodecFns {} (after wops).emitted).1 = some blocks ∧
+      BgzfSeqRead.init blocks = some r0 ∧ blocks.flatten = accepted wops ∧
+      ∀ rops : List BgzfSeqRead.Op,
+        BgzfSeqRead.delivered (BgzfSeqRead.run r0 rops).2 = (accepted wops).take (rops.map BgzfSeqRead.Op.want).sum := by
+  have hok := default_output_ok c.toCodecFns hb wops hclose
+  exact ⟨hok, roundtrip c {} ⟨by simp, by simp⟩ wops hclose hok⟩
 
 /-! ### non-vacuity (tests, not the claim) -/
 
